@@ -281,7 +281,7 @@ def _only_constant_fields_read(repo, fi, parent, node) -> bool:
 ORDER_KEEPING_FUNCS: set = set()  # names of repository functions that return the atoms of a residue in file order (filled per run)
 
 
-def derived_atom_lists(fn: ast.AST) -> dict:
+def derived_atom_lists(fn: ast.AST, direct: list = None) -> dict:
     """Locals that hold the atoms of one residue in file order: bound to `<x>.atoms`, or to a comprehension / filter / list /
     tuple / slice / reversed of such a sequence whose members are still the atoms (sorting by a key makes a position canonical
     and ends the derivation)."""
@@ -331,6 +331,11 @@ def derived_atom_lists(fn: ast.AST) -> dict:
         others = [v for s, v in astq.assignments(fn, name) if v is not derived[name] and not (v is not None and is_src(v))]
         if others:
             del derived[name]
+    if direct is not None:
+        # `a, b, c = <such a sequence>` without a name in between
+        for n in ast.walk(fn):
+            if isinstance(n, ast.Assign) and len(n.targets) == 1 and isinstance(n.targets[0], (ast.Tuple, ast.List)) and not isinstance(n.value, ast.Name) and not any(isinstance(t, ast.Starred) for t in n.targets[0].elts) and is_src(n.value):
+                direct.append(n)
     return derived
 
 
@@ -422,7 +427,16 @@ def run(chk) -> None:
                     ORDER_KEEPING_FUNCS.add(g.node.name)
     for m, q in sorted(reach):
         fi = repo.modules[m].funcs[q]
-        derived = derived_atom_lists(fi.node)
+        direct: list = []
+        derived = derived_atom_lists(fi.node, direct)
+        for n in direct:
+            n_der += 1
+            chk.violation(
+                "positional-atom",
+                fi.site(n),
+                f"`{norm(n)[:110]}` gives each name the atom at its position in a sequence that keeps the order in which the atoms of the residue are listed: which atom a name gets depends on the order of the atoms in the file",
+                K(fi, f"positional-unpack:{norm(n.targets[0])}"),
+            )
         if not derived:
             continue
         par = astq.parents(fi.node)
